@@ -103,6 +103,63 @@ func bigTextCases(r *rand.Rand, st *Stats, n int, prefix string) []Case {
 	return out
 }
 
+// extremeCases: one dimension at a time pushed far beyond what the random generator draws — thousands of matches,
+// dozens of loop iterations (named-loop keys "10" < "2"), counts in the hundreds, deep recursion, dozens of captures,
+// commands, alternatives, definitions and with-items, long literals and names, a transform that loops thousands of times.
+func extremeCases(st *Stats, prefix string) []Case {
+	rep := strings.Repeat
+	seq := func(n int, f func(i int) string, sep string) string {
+		parts := []string{}
+		for i := 0; i < n; i++ {
+			parts = append(parts, f(i))
+		}
+		return strings.Join(parts, sep)
+	}
+	letters := func(n int) string {
+		b := make([]byte, n)
+		for i := range b {
+			b[i] = byte('a' + i%26)
+		}
+		return string(b)
+	}
+	type pt struct{ src, text string }
+	list := []pt{
+		{"find all 'a'", rep("a", 3000)},
+		{"find last 3 'a'", rep("a", 3000)},
+		{"find skip 2990 take 5 'a'", rep("ab", 1500) + rep("a", 1500)},
+		{"replace all 'a' with matchNumber '/' totalMatches", rep("a", 1200)},
+		{"find all at least 1 (digit = d) named ds", "x" + rep("0123456789", 3) + "y"},
+		{"find all at least 1 (at least 1 (digit = d) named inner ',') named outer", rep("12,3,456,", 5)},
+		{"replace all at least 1 (letter = l) named ls with ls value", letters(40) + " " + letters(13)},
+		{"find all at least 100 'a'", rep("a", 150) + "b" + rep("a", 99)},
+		{"find all between 100 and 300 any", rep("xy", 260)},
+		{"find all between 100 and 300 any fewest 'q'", rep("xy", 90) + "q" + rep("z", 350) + "q"},
+		{"find all exactly 64 letter", letters(200)},
+		{"find all {'(' maybe p ')'} = p", rep("(", 120) + rep(")", 120) + " " + rep("(", 5) + rep(")", 3)},
+		{"find all {'a' maybe r} = r 'b'", rep("a", 400) + "b"},
+		{"find all " + seq(30, func(i int) string { return fmt.Sprintf("(letter = c%d)", i) }, " "), letters(70)},
+		{seq(30, func(i int) string { return fmt.Sprintf("find all '%c'", 'a'+i%26) }, "\n"), letters(30)},
+		{"find all in " + seq(60, func(i int) string { return fmt.Sprintf("'%c%c'", 'a'+i%26, 'a'+(i/26)%26) }, ", "), letters(60) + "zaab"},
+		{"find all " + seq(40, func(i int) string { return fmt.Sprintf("'x%d'", i) }, " or "), "x39 x3 x12x0 x40"},
+		{"find all '" + letters(3000) + "'", "q" + letters(3000) + letters(3000) + "q"},
+		{"replace all 'a' with " + seq(50, func(i int) string { return fmt.Sprintf("'%d'", i%10) }, " ") + " value", "banana"},
+		{"find all (letter = " + rep("n", 300) + ") " + rep("n", 300), "aabbcd"},
+		{seq(30, func(i int) string { return fmt.Sprintf("set p%d to pattern '%c'", i, 'a'+i%26) }, "\n") + "\nfind all p0 p29 or p7 p8", letters(30) + "ad hi"},
+		{"set f to transform set i to 0 loop if i >= 5000 then break end set i to i + 1 end return i end replace all 'a' with f", "a-a"},
+		{"set f to transform set s to '' set i to 0 loop if i >= 300 then break end set s to s + match set i to i + 1 end return s end replace all 'ab' with f", "ab ab"},
+		{"find all @/" + rep("(a)", 25) + "\\25\\1/", rep("a", 27) + " " + rep("a", 26)},
+		{"find all @/[a-c]{50,80}d/", rep("abc", 20) + "d" + rep("cab", 30) + "d"},
+		{"find all line start at least 0 not '\\n' line end", rep("line of text\n", 300)},
+		{"find all whole line", rep("x", 2500) + "\n" + rep("y", 2500)},
+	}
+	out := []Case{}
+	for i, c := range list {
+		out = append(out, Case{ID: fmt.Sprintf("%s%d", prefix, i), Op: "run", Fields: []string{hx(c.src), hx(c.text)}, Meta: map[string]string{}})
+	}
+	st.Counts["extreme-cases"] = len(out)
+	return out
+}
+
 func sizes(tier string, quick, thorough int) int {
 	if tier == "thorough" {
 		return thorough
@@ -129,7 +186,7 @@ func init() {
 			cs = append(cs, c)
 		}
 		st.Features["trace-cases"] = sizes(tier, 500, 12000) * 3
-		return cs
+		return append(cs, extremeCases(st, "x")...)
 	}
 	propGens["C02"] = func(r *rand.Rand, tier string, st *Stats) []Case {
 		cfg := core
@@ -147,6 +204,7 @@ func init() {
 		cfg.MultiCmd = true
 		cs := searchCases(r, st, sizes(tier, 1300, 30000), cfg, 4, 20, "g")
 		cs = append(cs, bigTextCases(r, st, sizes(tier, 20, 200), "big")...)
+		cs = append(cs, extremeCases(st, "x")...)
 		return append(cs, bindFailCases(r, st, sizes(tier, 300, 6000), "b")...)
 	}
 	propGens["C05"] = func(r *rand.Rand, tier string, st *Stats) []Case {
@@ -158,6 +216,7 @@ func init() {
 		cs := searchCases(r, st, sizes(tier, 1500, 30000), cfg, 4, 14, "g")
 		// names of every kind in the with list: named loops (table-valued), subroutines, global patterns
 		cfg.NamedLoops = true
+		cs = append(cs, extremeCases(st, "x")...)
 		return append(cs, withNameCases(r, st, sizes(tier, 400, 8000))...)
 	}
 	propGens["C09"] = func(r *rand.Rand, tier string, st *Stats) []Case {
@@ -168,6 +227,7 @@ func init() {
 		cfg.Amounts = true
 		cfg.MultiCmd = true
 		cs := searchCases(r, st, sizes(tier, 2000, 40000), cfg, 5, 10, "g")
+		cs = append(cs, extremeCases(st, "x")...)
 		return append(cs, bigTextCases(r, st, sizes(tier, 20, 200), "big")...)
 	}
 }
